@@ -12,18 +12,15 @@ open OttoVerif.F64 (FV)
 
 /-! ## JSON.parse -/
 
-/-- `grammar_accepts`: otto accepts exactly the texts of the ES5 JSON grammar, except that a number
-    literal outside the double range is rejected (region parse_num_overflow).  The hypothesis
+/-- `grammar_accepts`: otto accepts exactly the texts of the ES5 JSON grammar.  The hypothesis
     `goStr t = t` says the text has no unpaired surrogate (region parse_lone_surrogate). -/
-theorem grammar_accepts (t : Str) (hs : goStr t = t)
-    (hov : ∀ rt, parseText t = some rt → rtAny overflows (fun _ => false) rt = false) :
-    (C11.jsonParse t).isSome = inJSON t := by
+theorem grammar_accepts (t : Str) (hs : goStr t = t) : (C11.jsonParse t).isSome = inJSON t := by
   unfold C11.jsonParse inJSON
   rw [hs]
   cases h : parseText t with
   | none => rfl
   | some rt =>
-    obtain ⟨v, hv⟩ := decode_some rt (hov rt h)
+    obtain ⟨v, hv⟩ := decode_some rt
     simp [hv]
 
 /-- every text the grammar rejects is rejected by otto (SyntaxError), with no exception -/
@@ -31,21 +28,15 @@ theorem rejects_invalid (t : Str) (hs : goStr t = t) (h : inJSON t = false) : C1
   unfold C11.jsonParse; unfold inJSON at h
   rw [hs]; cases hp : parseText t <;> simp_all
 
-/-- `denotation`: outside the overflow and lone-surrogate regions an accepted text yields the value
-    ES5 prescribes, up to the order of object properties (`canon` sorts the keys of both sides). -/
+/-- `denotation`: an accepted text yields exactly the value ES5 prescribes — numbers as the nearest
+    double (±∞ beyond the range), strings code unit by code unit, properties in text order with a
+    duplicate overwriting the value — unless a string literal holds an escaped surrogate half that is
+    not paired (region parse_lone_surrogate). -/
 theorem denotation (t : Str) (hs : goStr t = t) (rt : RT) (hp : parseText t = some rt)
-    (hc : rtAny overflows loneEsc rt = false) :
-    C11.jsonParse t = (Spec.jsonParse t).map canon := by
+    (hc : rtAny loneEsc rt = false) :
+    C11.jsonParse t = Spec.jsonParse t := by
   unfold C11.jsonParse Spec.jsonParse
   rw [hs, hp]; simp [decode_eq rt hc]
-
-/-- … and exactly that value when no object of the result has two or more properties
-    (outside region parse_key_order) -/
-theorem denotation_exact (t : Str) (hs : goStr t = t) (rt : RT) (hp : parseText t = some rt)
-    (hc : rtAny overflows loneEsc rt = false) (hu : unordered (denote rt) = false) :
-    C11.jsonParse t = Spec.jsonParse t := by
-  rw [denotation t hs rt hp hc]
-  unfold Spec.jsonParse; rw [hp]; simp [canon_id _ hu]
 
 /-- string literals: Go's unquote equals the ES5 code-unit reading unless an escaped surrogate half
     is unpaired -/
@@ -113,6 +104,30 @@ theorem gap_number_eq (x : FV) : C11.gapOf (.num x) = Spec.gapOf (.num x) := by
       split <;> split <;> first | rfl | (congr 1; omega)
     · rfl
 
+/-- a string `space` gives the ES5 gap (its first ten code units) unless those hold an unpaired
+    surrogate (region str_lone_surrogate) -/
+theorem gap_string_eq (s : Str) (h : goStr (s.take 10) = s.take 10) : C11.gapOf (.str s) = Spec.gapOf (.str s) := by
+  simp [C11.gapOf, Spec.gapOf, h]
+
+/-- the array replacer: otto's property list is ES5's PropertyList (15.12.3 step 4.b) for every
+    replacer array whose names need no surrogate repair — accepted names in order, duplicates and
+    other values skipped -/
+theorem property_list_eq (numStr : FV → Str) (items : List PLItem)
+    (h : ∀ it ∈ items, C11.PLItem.name numStr it = Spec.PLItem.name numStr it) :
+    C11.propertyList numStr items = Spec.propertyList numStr items [] := by
+  unfold C11.propertyList
+  generalize ([] : List Str) = seen
+  induction items generalizing seen with
+  | nil => rfl
+  | cons it rest ih =>
+    have h1 := h it (by simp)
+    have h2 : ∀ x ∈ rest, C11.PLItem.name numStr x = Spec.PLItem.name numStr x :=
+      fun x hx => h x (List.mem_cons_of_mem _ hx)
+    simp only [plNames, Spec.propertyList, h1]
+    cases Spec.PLItem.name numStr it with
+    | none => exact ih h2 seen
+    | some n => by_cases hc : seen.contains n = true <;> simp [hc, ih h2]
+
 /-! ## JSON.stringify: the emitted text -/
 
 /-- `stringify_valid` + `roundtrip_value`: for EVERY Go value tree the walk can produce (all code
@@ -120,12 +135,12 @@ theorem gap_number_eq (x : FV) : C11.gapOf (.num x) = Spec.gapOf (.num x) := by
     the text written by json.Marshal+Indent is accepted by the ES5 JSON grammar, and reading it back
     gives exactly that tree (`jvOf`): strings code unit for code unit, containers element by element,
     numbers as the value of their printed digits.  The reading falls in no parse deviation region, so
-    otto's own JSON.parse returns the same tree up to key order.  `GOK` asks that code units are
-    below 2^16 and that each printed number is a JSONNumber in range (`NumTxt`, validated per sample). -/
+    otto's own JSON.parse returns the same tree.  `GOK` asks that code units are below 2^16 and that
+    each printed number is a JSONNumber (`NumTxt`, validated per sample). -/
 theorem stringify_valid (L : OttoVerif.C06.Lib) (gap : Str) (hgap : gap.all isWS = true) (g : GV) (hg : GOK L g) :
     inJSON (marshal L gap 0 g) = true ∧
     Spec.jsonParse (marshal L gap 0 g) = some (jvOf L g) ∧
-    (parseText (marshal L gap 0 g)).bind decode = some (canon (jvOf L g)) := by
+    (parseText (marshal L gap 0 g)).bind decode = some (jvOf L g) := by
   obtain ⟨rt, h1, h2, h3⟩ := parseText_marshal L gap hgap g hg
   refine ⟨by simp [inJSON, h1], by simp [Spec.jsonParse, h1, h2], ?_⟩
   simp [h1, decode_eq rt h3, h2]
@@ -137,8 +152,8 @@ theorem quote_roundtrip (s : Str) (hs : ∀ c ∈ s, c < 65536) (rest : List Nat
   obtain ⟨items, h1, h2, h3⟩ := scan_goQuote s hs rest
   exact ⟨items, h1, h2, by rw [goCombine_eq items h3, h2]⟩
 
-/-- outside region str_html_escape Go's string escaping IS ES5's Quote, for every string -/
-theorem quote_eq (s : Str) (h : s.any htmlChar = false) : goQuote s = quote s := goQuote_eq s h
+/-- outside region str_u2028_escape Go's string escaping IS ES5's Quote, for every string -/
+theorem quote_eq (s : Str) (h : s.any lsps = false) : goQuote s = quote s := goQuote_eq s h
 
 /-! ## non-vacuity -/
 
@@ -153,20 +168,10 @@ example : inJSON (marshal OttoVerif.C06.Spec.exactLib [32, 32] 0
 def firstStr : Option JV → Str
   | some (.str s) => s
   | _ => []
-def firstKey : Option JV → Str
-  | some (.obj (.cons k _ _)) => k
-  | _ => []
 
-/-- parse_num_overflow: the text 1e999 -/
-example : C11.jsonParse [49, 101, 57, 57, 57] ≠ Spec.jsonParse [49, 101, 57, 57, 57] :=
-  fun h => absurd (congrArg Option.isSome h) (by decide +kernel)
 /-- parse_lone_surrogate: a string literal holding the escape for 0xD800 -/
 example : C11.jsonParse [34, 92, 117, 100, 56, 48, 48, 34] ≠ Spec.jsonParse [34, 92, 117, 100, 56, 48, 48, 34] :=
   fun h => absurd (congrArg firstStr h) (by decide +kernel)
-/-- parse_key_order: {"b":null,"a":null} — the model keeps the property SET (sorted), ES5 the text order -/
-example : C11.jsonParse [123, 34, 98, 34, 58, 110, 117, 108, 108, 44, 34, 97, 34, 58, 110, 117, 108, 108, 125]
-    ≠ Spec.jsonParse [123, 34, 98, 34, 58, 110, 117, 108, 108, 44, 34, 97, 34, 58, 110, 117, 108, 108, 125] :=
-  fun h => absurd (congrArg firstKey h) (by decide +kernel)
 
 example : distinctKeys (.obj (.cons [97] .null (.cons [98] (.arr (.cons (.obj .nil) .nil)) .nil))) = true := by decide
 
@@ -175,19 +180,13 @@ def idNum : FV → Str := fun _ => [48]
 /-- str_key_order: {b:null,a:null} -/
 example : C11.jsonStringify OttoVerif.C06.Spec.exactLib idNum 9 (.obj (.cons [98] .null (.cons [97] .null .nil))) .none .absent
     ≠ Spec.jsonStringify idNum 9 (.obj (.cons [98] .null (.cons [97] .null .nil))) .none .absent := by decide +kernel
-/-- str_html_escape: "<" -/
-example : C11.jsonStringify OttoVerif.C06.Spec.exactLib idNum 9 (.str [60]) .none .absent
-    ≠ Spec.jsonStringify idNum 9 (.str [60]) .none .absent := by decide +kernel
-/-- str_lone_surrogate: "\ud800" -/
+/-- str_u2028_escape: the one-character string U+2028 -/
+example : C11.jsonStringify OttoVerif.C06.Spec.exactLib idNum 9 (.str [0x2028]) .none .absent
+    ≠ Spec.jsonStringify idNum 9 (.str [0x2028]) .none .absent := by decide +kernel
+/-- str_lone_surrogate: the one-character string 0xD800 -/
 example : C11.jsonStringify OttoVerif.C06.Spec.exactLib idNum 9 (.str [0xD800]) .none .absent
     ≠ Spec.jsonStringify idNum 9 (.str [0xD800]) .none .absent := by decide +kernel
-/-- str_proplist_slots: {"":null,a:true} with replacer [true,"a"] -/
-example : C11.jsonStringify OttoVerif.C06.Spec.exactLib idNum 9 (.obj (.cons [] .null (.cons [97] (.bool true) .nil))) (.list [.other, .str [97]]) .absent
-    ≠ Spec.jsonStringify idNum 9 (.obj (.cons [] .null (.cons [97] (.bool true) .nil))) (.list [.other, .str [97]]) .absent := by decide +kernel
-/-- str_int_digits: 2^62 -/
-example : C11.jsonStringify OttoVerif.C06.Spec.exactLib idNum 9 (.num (.fin false (2 ^ 52) 10)) .none .absent
-    ≠ Spec.jsonStringify idNum 9 (.num (.fin false (2 ^ 52) 10)) .none .absent := by decide +kernel
-/-- str_gap_bytes: seven times U+00E9 -/
-example : C11.gapOf (.str [0xE9, 0xE9, 0xE9, 0xE9, 0xE9, 0xE9, 0xE9]) ≠ Spec.gapOf (.str [0xE9, 0xE9, 0xE9, 0xE9, 0xE9, 0xE9, 0xE9]) := by decide +kernel
+/-- str_lone_surrogate, in the gap: nine spaces and a surrogate pair, cut after its first half -/
+example : C11.gapOf (.str [32, 32, 32, 32, 32, 32, 32, 32, 32, 0xD83D, 0xDE00]) ≠ Spec.gapOf (.str [32, 32, 32, 32, 32, 32, 32, 32, 32, 0xD83D, 0xDE00]) := by decide +kernel
 
 end OttoVerif.C11.Thm
